@@ -46,7 +46,11 @@ func IllFormedGrammar(t *rapid.T, o IllFormedOpts) (*Grammar, []Injection) {
 	// place puts expression x at a left-reachable position of rule r
 	place := func(r int, x *Expr, label string) string {
 		old := g.Rules[r].Body
-		switch rapid.IntRange(0, 6).Draw(t, label) {
+		switch rapid.IntRange(0, 8).Draw(t, label) {
+		case 7, 8: // last alternative of a choice that -switch dispatches on its first characters
+			lit := func(r rune) *Expr { return &Expr{K: KLit, Runes: []rune{r}} }
+			g.Rules[r].Body = &Expr{K: KAlt, Kids: []*Expr{Seq(lit('a'), lit('a')), lit('b'), Seq(lit('c'), Un(KOpt, lit('d'))), Seq(x, lit('e'))}}
+			return "last-alternative-of-a-dispatch-choice"
 		case 5: // after a semantic predicate: consumes nothing, whatever it computes
 			g.Rules[r].Body = Seq(&Expr{K: KPred, Pred: rapid.IntRange(0, len(Predicates)-1).Draw(t, label+"pred")}, x, old)
 			return "after-predicate"
